@@ -145,7 +145,7 @@ Proof. intros; subst co; unfold convert_erc20, tki; destruct (t_kind tk); cbn [p
 Lemma vb_convert_denom_to_target tk a src tg x : In a U -> pdelta co (convert_denom_to_target tk a src tg x) = 0.
 Proof.
   intros; subst co; unfold convert_denom_to_target.
-  destruct (is_fx tk || negb (has_aliases tk)); [reflexivity|].
+  destruct (no_convert tk src); [reflexivity|].
   destruct (src =? old_target tk tg); [reflexivity|].
   destruct (t_kind tk); destruct (src =? 0); try destruct (old_target tk tg =? 0); vb_fin U HU.
 Qed.
@@ -634,12 +634,16 @@ Definition ex_U : list Z := [100; 101].
 Definition ex_parked : list op :=
   [ OSendToFx 1 1 100 1000 0; OBridgeCallMsg 1 100 100 [(1, 400)] 9000; OBridgeCallResult 1 1 false ].
 
+Ltac ok_tac :=
+  repeat (apply Forall_cons; [cbn [op_ok]; unfold toks_ok; repeat split; try (cbn; tauto);
+                              intros p Hp; cbn in Hp; intuition (subst; cbn; lia)|]); apply Forall_nil.
+
 Lemma ex_wf : users ex_U /\ recs_wf ex_U (sr ex_s0) /\ Forall (op_ok ex_U) ex_parked.
 Proof.
   split; [|split].
   - split; [repeat constructor; cbn; intuition discriminate|]. intros a [<-|[<-|[]]]; reflexivity.
   - split; intros b [].
-  - unfold ex_parked, ex_U. repeat constructor; cbn; intuition lia.
+  - unfold ex_parked, ex_U. ok_tac.
 Qed.
 
 (* the full "withdrawable" reading is false of the faithful model: the holder's balance suffices, what is bridged in
@@ -672,4 +676,8 @@ Example conservation_nonvacuous :
   (user_holdings ex_U 1 s, in_flight 1 s, deposited 1 s, executed_out 1 s) = (1363, 0, 1500, 137) /\
   (user_holdings ex_U 0 s, in_flight 0 s, deposited 0 s, executed_out 0 s) = (4925, 55, 0, 20) /\
   net_in 1 1 s = 863 /\ supply_of 11 s = 863 /\ held_total ex_U 11 s = 863.
-Proof. split; [unfold ex_hist, ex_U; repeat constructor; cbn; intuition lia|]. vm_compute. repeat split. Qed.
+Proof. split; [unfold ex_hist, ex_U; ok_tac|]. vm_compute. repeat split. Qed.
+
+(* transaction semantics of the model: a refused operation changes nothing *)
+Lemma refused_unchanged g s o : snd (step g s o) = false -> fst (step g s o) = s.
+Proof. unfold step. destruct (run g o s); [discriminate|reflexivity]. Qed.
